@@ -37,7 +37,8 @@ def scenarios(tier):
                 out.append(dict(name=nm + "-p1", fn="run", params=dict(adv=adv, sub=sub, diff=diff, L=L, M=M, npart=1, pinned=False), cost=30))
                 if sub is None and not diff and (adv == "EF" or not q):
                     for regime in ("out", "stay", "hop"):
-                        out.append(dict(name=nm + f"-p2-{regime}", fn="run", params=dict(adv=adv, sub=sub, diff=diff, L=L, M=M, npart=2, pinned=True, regime=regime), cost=40))
+                        for who in (1, 0):  # which array slot holds the regime particle (index cross-talk depends on the order)
+                            out.append(dict(name=nm + f"-p2-{regime}{who}", fn="run", params=dict(adv=adv, sub=sub, diff=diff, L=L, M=M, npart=2, pinned=True, regime=regime, who=who), cost=40))
     return out
 
 
@@ -70,13 +71,14 @@ def run(W, p):
     U = {(k, c, n): W.real(f"{c}{k}_{n}") for k in range(ns) for c in "uv" for n in range(npart)}
     if p["pinned"]:
         # the second particle's velocity is confined to one regime (array cross-talk is the point here)
+        r_ = p.get("who", 1)
         for k in range(ns):
             if p["regime"] == "out":
-                W.assume(W.all([W.lt(100 * 800, U[(k, "u", 1)] * dt), W.eq(U[(k, "v", 1)], 0)]), "second particle: leaves the grid")
+                W.assume(W.all([W.lt(100 * 800, U[(k, "u", r_)] * dt), W.eq(U[(k, "v", r_)], 0)]), "second particle: leaves the grid")
             elif p["regime"] == "stay":
-                W.assume(W.all([W.lt(-8, U[(k, "u", 1)] * dt), W.lt(U[(k, "u", 1)] * dt, 8), W.eq(U[(k, "v", 1)], 0)]), "second particle: moves < 0.01 cell")
+                W.assume(W.all([W.lt(-8, U[(k, "u", r_)] * dt), W.lt(U[(k, "u", r_)] * dt, 8), W.eq(U[(k, "v", r_)], 0)]), "second particle: moves < 0.01 cell")
             else:
-                W.assume(W.all([W.eq(U[(k, "u", 1)] * dt, 800), W.eq(U[(k, "v", 1)], 0)]), "second particle: hops exactly one cell east")
+                W.assume(W.all([W.eq(U[(k, "u", r_)] * dt, 800), W.eq(U[(k, "v", r_)], 0)]), "second particle: hops exactly one cell east")
     D = W.frac(3, 4) if p["diff"] else 0  # sqrt(2 D / dt) = 1/20 exactly; the draws are arbitrary reals (C11 treats D, dt symbolically)
     S = st.State()
     S.append(X=W.arr(x, "f"), Y=W.arr(y, "f"), Z=5)
